@@ -31,8 +31,8 @@ META = {
     'level_note': (
         'Trusted: the harness, Python bytes slicing. Edges the statement does not pin are either not generated or '
         'accept the plausible set: STRING$(n,"") is not generated; a numeric argument outside -32768..32767 must give '
-        'some BASIC error (Illegal function call or Overflow - which one is not pinned); MID$(t$,start,0)=.. with start outside '
-        '1..LEN(t$) may raise error 5 or do nothing; fractional arguments are only generated as n+.25 / n+.75 (the '
+        'some BASIC error (Illegal function call or Overflow - which one is not pinned); MID$(t$,start,0)=.. replaces nothing and raises '
+        'nothing whatever the start (pinned to the no-op reading: a zero length disables the start check); fractional arguments are only generated as n+.25 / n+.75 (the '
         'tie rule belongs to C03). When the source of a MID$ statement is the target variable itself the reference is '
         'the left-to-right in-place character move of GW-BASIC (documented PC-BASIC behaviour); such cases are only '
         'generated in direct mode with the target in string space. INSTR follows the manual rules in their stated '
@@ -524,8 +524,8 @@ def pt_directed():
                 for form in ('lit', 'var'):
                     out.append((lit, variant, [('lset', form, src)]))
                     out.append((lit, variant, [('rset', form, src)]))
-            for start in (1, 2, len(lit), len(lit) + 1, 0):
-                for n in (None, 1, 3):
+            for start in (1, 2, len(lit), len(lit) + 1, 0, 255, 256):
+                for n in (None, 0, 1, 3, 255):
                     out.append((lit, variant, [('mid', start, n, 'lit', b'QRS')]))
             out.append((lit, variant, [('mid', 1, 2, 'var', b'\x00\xff!')]))
             # a second in-place statement on the same target
@@ -603,7 +603,7 @@ def directed_cases():
             out.append(build('rset', b'', src, a, (), {}))
             for s in args:
                 out.append(build('midstmt2', b'', src, a, (s,), {'n0': 'ivar'}))
-                for m in (-1, 0, 1, 2, 255, 256):
+                for m in sorted({-1, 0, 1, 2, ln, 255, 256}):
                     out.append(build('midstmt3', b'', src, a, (s, m), {'n0': 'ivar', 'n1': 'ivar'}))
         for s in args:
             out.append(build('midself2', b'', b'', a, (s,), {'n0': 'ivar'}))
